@@ -23,9 +23,11 @@ ASSUMPTIONS = ['deterministic interestingness test (a function of the joint cont
                'run_pass/reduce-level schedule independence is proved for the per-file loop (rounds); the lifting over files and passes is structural and is exercised by the correspondence runs']
 
 
-def seq_reference(sc, order):
+def seq_reference(sc, order, flags=None):
     """Independent textbook loop over in-memory contents: one candidate at a time.
-    order: file names in the manager's iteration order (ties of the size sort)."""
+    order: file names in the manager's iteration order (ties of the size sort).
+    flags['unaltered'] is set when some op of the pass leaves some content the loop reaches unchanged (such a candidate may be
+    reported as a pass bug by a speculative test even when the loop itself never looks at it)."""
     names = [n for n, _ in sc['files']]
     disk = {n: c.encode('latin-1') for n, c in sc['files']}
     rules = [([tuple(a) for a in atoms], out) for atoms, out in sc['rules']]
@@ -44,6 +46,8 @@ def seq_reference(sc, order):
             start = len(disk[n])
             state = 0
             while state is not None:
+                if flags is not None and any(apply_op(o, disk[n]) == disk[n] for o in ops):
+                    flags['unaltered'] = True
                 # one round: enumerate from state until the first acceptable candidate
                 win = None
                 s = state
@@ -106,6 +110,20 @@ def explore(ctx):
                 ctx.nontriv(repr((sc2['files'], sc2['passes'], sc2['rules'], n, sch)))
         if profile == 'contract' and runs and all(contract_ok(o) for _, o in runs):
             check_indep(ctx, sc, runs)
+        elif profile == 'contract' and runs:
+            # the observed runs reported a pass bug / an error.  Whether that is legitimate is decided WITHOUT the real driver: when no
+            # op of any pass leaves any content reached by the textbook loop unchanged (and the profile has no ERROR / raising op, no
+            # limits), nothing can be reported, every run must have ended cleanly, and the textbook comparison applies all the same
+            fl = {}
+            if seq_reference(runs[0][0], runs[0][1].order, fl) is not None and not fl.get('unaltered'):
+                ctx.count('contract:decided-by-textbook-loop')
+                bad_run = next(((sc2, o) for sc2, o in runs if any(p['bug'] != 0 for p in o.passes)), None)
+                if bad_run is None:
+                    continue
+                ctx.violation('differs-from-sequential', f'N={bad_run[0]["cfg"]["N"]}: the run reported a pass bug / error exit (bug={[p["bug"] for p in bad_run[1].passes]}, '
+                              f'code={[p["code"] for p in bad_run[1].passes]}) although no candidate of this scenario is unaltered, invalid input or an error: '
+                              f'the textbook loop reports nothing', {'scenario': bad_run[0]})
+                check_indep(ctx, sc, runs)
     # 2. exhaustive schedules for small single-pass rounds
     nex = 6 if ctx.quick() else 30
     slen = 5 if ctx.quick() else 7
